@@ -7,7 +7,7 @@ from fractions import Fraction
 from ..sx import lower as LW
 from ..sx import terms as T
 from ..sx import loader
-from ..sx.sym import (Context, Q, QI, Sym, SymBool, K, explore, fresh, lift, concrete, simp, Unsupported)
+from ..sx.sym import (Context, Q, QI, Sym, SymI, SymBool, K, explore, fresh, lift, concrete, simp, Unsupported)
 from ..shims.np_shim import NP, MATH, BUILTINS, SymArray, SymRec, asarray, UNINIT, Uninit, UninitRead
 
 TOL = Fraction(1, 10**9)
@@ -27,13 +27,14 @@ def P(x) -> T.Poly:
     return lift(x).p
 
 
-def box(job, **ranges):
-    """Declare symbolic inputs with closed ranges; returns (dict name->Sym, list of BoolT)."""
+def box(job, _integer=(), **ranges):
+    """Declare symbolic inputs with closed ranges; returns (dict name->Sym, list of BoolT).
+    Names in `_integer` are symbolic *Python ints* (SymI): same ranges, integer kind for numpy's dtype rules."""
     vs, conds = {}, []
     for n, (lo, hi) in ranges.items():
         lo_q = Fraction(str(lo)) if lo is not None else None
         hi_q = Fraction(str(hi)) if hi is not None else None
-        v = fresh(n, pos=(lo_q is not None and lo_q > 0))
+        v = fresh(n, pos=(lo_q is not None and lo_q > 0), integer=n in _integer)
         vs[n] = v
         if lo_q is not None:
             conds.append(T.b_le(T.Poly.const(lo_q), v.p))
@@ -70,16 +71,18 @@ def paths(job, fn, assumptions, setup=None, max_paths=512, catch=(Exception,)):
     return res
 
 
-def check_defined(job, name, pr, bound=None):
-    """Every definedness condition recorded on the path must hold under the path condition."""
+def check_defined(job, name, pr, bound=None, overflow=False, replay=None):
+    """Every definedness condition recorded on the path must hold under the path condition.
+    `overflow=True` checks the 'integer overflow' conditions of integer-dtype array arithmetic instead (only
+    harnesses that bound their integer inputs can prove those)."""
     seen = set()
     n = 0
     for cond, why in pr.ctx.defined:
-        if cond.id in seen:
+        if cond.id in seen or why.startswith("integer overflow") != overflow:
             continue
         seen.add(cond.id)
         n += 1
-        job.prove(f"{name}/defined[{n}]", pr.pc + [T.b_not(cond)], bound=bound, note=why[:120])
+        job.prove(f"{name}/{'no-wrap' if overflow else 'defined'}[{n}]", pr.pc + [T.b_not(cond)], bound=bound, note=why[:120], replay=replay)
     return n
 
 
